@@ -197,3 +197,9 @@ Example C06_diff_nonvacuous :
             d = ([29; 42; 2; 88; 89; 145; 3; 20] ++ [20] ++ bytes_of_string "QRSTUVWXYZ0123456789"%string)%list /\
             patch_delta src d = Ok tgt.
 Proof. eexists. vm_compute. repeat split. Qed.
+
+(* ---- the (mask, shift) tables of decodeOffset / decodeSize are regenerated from the source too *)
+Theorem C06_tables_tied :
+  packfile_offsets = tbl_to_Z offsets_tbl /\ packfile_sizes = tbl_to_Z sizes_tbl.
+Proof. split; [exact offsets_tbl_gen_spec | exact sizes_tbl_gen_spec]. Qed.
+Print Assumptions C06_tables_tied.
